@@ -865,6 +865,21 @@ func clStoreCursorsClosed(c *Ctx) {
 			})
 			c.Check(leak == nil, fn, s, cnt.in(fn, "a cursor opened for a snapshot iterator is closed when no iterator is handed out"),
 				"the store cursor (and its barrier session) is opened before the snapshot reference is known to be available and is leaked when it is not: that session never terminates and reclamation stops for ever")
+			// ... and on every path it is either installed in the iterator or closed
+			dropped := kfi.PathAvoiding(s, func(x ssa.Instruction) bool {
+				r, isR := x.(*ssa.Return)
+				return isR && r.Block() != fn.Recover
+			}, func(x ssa.Instruction) bool {
+				if st, ok := x.(*ssa.Store); ok && strip(st.Val) == ssa.Value(call) {
+					if f, _ := addrField(st.Addr); f == fIter {
+						return true
+					}
+				}
+				cc := callOf(x)
+				return cc != nil && p.CallsAny(x, itClose) && strip(cc.Args[0]) == ssa.Value(call)
+			})
+			c.Check(dropped == nil, fn, s, cnt.in(fn, "a cursor opened for a snapshot iterator is installed or closed on every path"),
+				"on some path the freshly opened cursor is neither kept nor closed: its barrier session is never released, so that session and every later one are never destructed")
 			continue
 		}
 		n++
